@@ -30,7 +30,7 @@ theorem elimEmpty_noEmpty {g g' : G} (h : elimEmpty g = .ok g') (hv : WellFormed
     have hp' := prune_prods_subset _ p hp
     refine ⟨?_, ?_, ?_⟩
     · rw [prune_start]; exact (hshape p hp').2 hb
-    · rw [prune_start]; exact fun e => hne e.symm
+    · rw [prune_start]; exact hf
     · intro q hq
       rw [prune_start]
       exact (hshape q (prune_prods_subset _ q hq)).1
